@@ -245,7 +245,7 @@ def run_text_case(c):
     """parse() of a raw text (+ first evaluate on a 2-sample trace); observations only"""
     import rtamt
     out = dict(c)
-    out.update({"outcome": "", "evalOut": "skipped", "implAst": {"op": "none"}, "ret": []})
+    out.update({"outcome": "", "evalOut": "skipped", "implAst": {"op": "none"}, "implKnown": False, "ret": []})
     signal.signal(signal.SIGALRM, _alarm)
     signal.alarm(int(c.get("timeout", 5)))
     spec = None
@@ -268,8 +268,10 @@ def run_text_case(c):
             out["outcome"] = "ok"
             try:
                 out["implAst"] = readback(spec.ast.specs[-1], 1)
+                out["implKnown"] = "unknown:" not in json.dumps(out["implAst"])
             except Exception as e:
                 out["implAst"] = {"op": "unreadable:" + type(e).__name__}
+                out["implKnown"] = False
         finally:
             signal.alarm(0)
     except Timeout:
